@@ -157,7 +157,7 @@ Inductive instr :=
 | IRcvChk (c : chan) (items : list item)  (* received: `if self.will_close or self.close_when_flushed: return False` *)
 | IRcvLoop (c : chan) (items : list item) (* received: top of one iteration up to the send_continue test *)
 | IRcvPost (c : chan) (it : item) (items : list item) (* received: `if self.request.completed:` ... end of iteration *)
-| IHwChoose (c : chan)          (* handle_write: `if not self.requests` / `elif total_outbufs_len >= send_bytes` *)
+| IHwChoose (c : chan)          (* handle_write: `if not self.requests` / `elif total_outbufs_len >= send_bytes`: flush = _flush_some_if_lockable / None *)
 | IHwNotify (c : chan)          (* _flush_some_if_lockable: `if total_outbufs_len < outbuf_high_watermark: notify()` *)
 | IHwTail (c : chan)            (* handle_write: close_when_flushed / will_close tests *)
 | IExpt (c : chan)              (* handle_expt_event: `... if self.socket is not None else 1` *)
@@ -606,7 +606,9 @@ Definition exec (g : cfg) (t : tid) (i : instr) (a : answer) (s : state) : resul
       Norm (setc s c (upd_req x (nreq x) (it_expect it) (sentc x) (queued x))) [IRcvLoop c rest] []
   | IHwChoose c =>
     let x := getc s c in
-    if nreq x =? 0 then Norm s (flush_some c true ++ [KFlushExc c; IHwTail c]) []
+    (* since /repo 8bcf05e both branches flush through _flush_some_if_lockable (try-acquire, flush, notify,
+       release): the I/O thread never flushes without outbuf_lock *)
+    if nreq x =? 0 then Norm s [ITryAcqO c; KFlushExc c; IHwTail c] []
     else if (Z.of_nat (send_bytes g) <=? pend x)%Z then Norm s [ITryAcqO c; KFlushExc c; IHwTail c] []
     else Norm s [IHwTail c] []
   | IHwNotify c =>
